@@ -131,7 +131,9 @@ def run_tlc(ctx, module, cfg, env=None, workers=None, timeout=900, extra=(), xmx
     name = name or (module + "_" + os.path.basename(cfg)).replace(".", "_")
     md = ctx.path("md_" + name + "_%d" % len(ctx.tlc_runs))
     cfgp = cfg if os.path.isabs(cfg) else os.path.join(SPEC, cfg)
-    jopts = ["-XX:+UseParallelGC", "-Xmx" + xmx, "-Xss64m"]
+    jtmp = ctx.path("jtmp")            # TLC leaves an empty tlc-<n> directory in java.io.tmpdir per run: keep them inside the work directory
+    os.makedirs(jtmp, exist_ok=True)
+    jopts = ["-XX:+UseParallelGC", "-Xmx" + xmx, "-Xss64m", "-Djava.io.tmpdir=" + jtmp]
     if deque:
         jopts.append("-Dtlc2.tool.queue.IStateQueue=StateDeque")
     cmd = ["timeout", "-k", "10", str(timeout), "java"] + jopts + ["-cp", TLA_CP, "tlc2.TLC", "-noGenerateSpecTE",
